@@ -177,18 +177,31 @@ class Path:
         return d
 
     def implied(self, goal, timeout_ms=1500):
-        """quick in-process proof attempt of ``goal`` from the path facts (with
-        instantiated quantified facts); used only to SIMPLIFY encodings (both the
-        simplified and the unsimplified encoding are exact under the facts)"""
+        """quick in-process proof attempt of ``goal`` from the path facts (with a few rounds of
+        instantiated quantified facts); used only to SIMPLIFY encodings (both the simplified and
+        the unsimplified encoding are exact under the facts)"""
         from . import solve
         try:
-            ground, quants, instances, neg = solve.prepare(self.facts, goal)
+            ground, quants = solve.classify(self.facts)
+            neg = z3.Not(goal)
             s = z3.Solver()
-            s.set("timeout", timeout_ms)
-            for h in ground + instances:
+            s.set("timeout", 400)
+            for h in ground:
                 s.add(h)
             s.add(neg)
-            return s.check() == z3.unsat
+            if s.check() == z3.unsat:
+                return True
+            ins = solve.Instantiator(ground, quants, neg)
+            for _ in range(2):
+                new = ins.round()
+                for c in new:
+                    s.add(c)
+                s.set("timeout", timeout_ms)
+                if new and s.check() == z3.unsat:
+                    return True
+                if ins.finished:
+                    break
+            return False
         except Exception:
             return False
 
